@@ -78,7 +78,8 @@ func bytesLit(s string) string {
 // ---- kinds ----
 // "str" bytes, "byte" N, "int" Z, "bool", "host", "origin", "set", "strs" (list bytes)
 
-var coqType = map[string]string{"str": "bytes", "byte": "N", "int": "Z", "bool": "bool", "host": "host", "origin": "origin", "set": "sset", "strs": "list bytes"}
+var coqType = map[string]string{"str": "bytes", "byte": "N", "int": "Z", "bool": "bool", "host": "host", "origin": "origin", "set": "sset", "strs": "list bytes",
+	"err": "option (bytes * reason)", "hostpat": "hostpat", "pattern": "pattern", "pkind": "pkind", "ip": "ipres"}
 
 func kindOfType(ty string) string {
 	switch ty {
@@ -98,16 +99,43 @@ func kindOfType(ty string) string {
 		return "set"
 	case "[]string":
 		return "strs"
+	case "error":
+		return "err"
+	case "HostPattern", "*HostPattern":
+		return "hostpat"
+	case "Pattern", "*Pattern":
+		return "pattern"
+	case "PatternKind":
+		return "pkind"
 	}
 	return ""
 }
 
-var zeroOfKind = map[string]string{"str": "([] : bytes)", "byte": "0%N", "int": "0%Z", "bool": "false", "host": "zero_host", "origin": "zero_origin"}
+var zeroOfKind = map[string]string{"str": "([] : bytes)", "byte": "0%N", "int": "0%Z", "bool": "false", "host": "zero_host", "origin": "zero_origin",
+	"err": "(None : option (bytes * reason))", "hostpat": "zero_hostpat", "pattern": "zero_pat"}
+
+// struct fields: (receiver kind, field) -> (projection, setter, kind)
+var fields = map[string][3]string{
+	"hostpat.Value":       {"hp_value", "set_hp_value", "str"},
+	"hostpat.Kind":        {"hp_kind", "set_hp_kind", "pkind"},
+	"pattern.Scheme":      {"pscheme", "", "str"},
+	"pattern.Kind":        {"pkind_of", "", "pkind"},
+	"pattern.Value":       {"pvalue", "", "str"},
+	"pattern.Port":        {"pport", "", "int"},
+	"pattern.HostPattern": {"hostpat_of", "", "hostpat"},
+	"host.Value":          {"hvalue", "", "str"},
+	"host.AssumeIP":       {"assume_ip", "", "bool"},
+}
+
+var pkinds = map[string]string{"PatternKindDomain": "KDomain", "PatternKindNonLoopbackIP": "KNonLoopbackIP", "PatternKindLoopbackIP": "KLoopbackIP", "PatternKindSubdomains": "KSubdomains"}
+var reasonsTbl = map[string]string{"invalid": "RInvalid", "prohibited": "RProhibited"}
 
 type fnInfo struct {
 	gname   string
 	results []string // kinds
 	loopy   bool
+	recv    string // kind of the receiver ("" for plain functions)
+	oracles string // extra leading arguments inside the section ("" : none)
 }
 
 var funcs = map[string]*fnInfo{}   // Go name -> info (translated so far, in this package)
@@ -122,6 +150,7 @@ type tr struct {
 	loop    []loopCtx // innermost last
 	depth   int
 	hasLoop bool
+	usesOracles bool
 }
 
 type loopCtx struct {
@@ -183,6 +212,26 @@ func (t *tr) kind(e ast.Expr) string {
 		switch e.Name {
 		case "true", "false":
 			return "bool"
+		case "zeroPattern":
+			return "pattern"
+		case "zeroHostPattern":
+			return "hostpat"
+		case "nil":
+			return "err"
+		}
+		if _, ok := pkinds[e.Name]; ok {
+			return "pkind"
+		}
+	case *ast.SelectorExpr:
+		if x := ident(e.X); x != "" {
+			if f, ok := fields[t.kinds[x]+"."+e.Sel.Name]; ok {
+				return f[2]
+			}
+		}
+		if inner, ok := e.X.(*ast.SelectorExpr); ok { // p.HostPattern.X
+			if f, ok := fields[t.kind(inner)+"."+e.Sel.Name]; ok {
+				return f[2]
+			}
 		}
 	case *ast.BasicLit:
 		switch e.Kind {
@@ -196,6 +245,11 @@ func (t *tr) kind(e ast.Expr) string {
 	case *ast.UnaryExpr:
 		if e.Op == token.NOT {
 			return "bool"
+		}
+		if e.Op == token.AND {
+			if cl, ok := e.X.(*ast.CompositeLit); ok && src(cl.Type) == "cfgerrors.UnacceptableOriginPatternError" {
+				return "err"
+			}
 		}
 		return t.kind(e.X)
 	case *ast.BinaryExpr:
@@ -216,23 +270,34 @@ func (t *tr) kind(e ast.Expr) string {
 			return "host"
 		case "Origin":
 			return "origin"
+		case "HostPattern":
+			return "hostpat"
+		case "Pattern":
+			return "pattern"
 		}
 	case *ast.CallExpr:
 		switch src(e.Fun) {
 		case "len", "int", "uint", "min", "max", "strings.IndexByte":
 			return "int"
-		case "string":
+		case "string", "strings.TrimSuffix":
 			return "str"
+		case "strings.HasPrefix":
+			return "bool"
 		}
 		if f, ok := funcs[t.pkg+"."+src(e.Fun)]; ok && len(f.results) == 1 {
 			return f.results[0]
 		}
 		if se, ok := e.Fun.(*ast.SelectorExpr); ok {
+			if f, ok := funcs[t.pkg+"."+se.Sel.Name]; ok && f.recv != "" && len(f.results) == 1 {
+				return f.results[0]
+			}
 			switch se.Sel.Name {
 			case "MaxLen", "IndexAfter":
 				return "int"
-			case "Contains":
+			case "Contains", "Is4In6", "IsLoopback":
 				return "bool"
+			case "Zone", "String":
+				return "str"
 			}
 		}
 	}
@@ -251,6 +316,15 @@ func (t *tr) expr(e ast.Expr) string {
 			return "zero_host"
 		case "zeroOrigin":
 			return "zero_origin"
+		case "zeroPattern":
+			return "zero_pat"
+		case "zeroHostPattern":
+			return "zero_hostpat"
+		case "nil":
+			return "(None : option (bytes * reason))"
+		}
+		if k, ok := pkinds[e.Name]; ok {
+			return k
 		}
 		if _, ok := t.kinds[e.Name]; ok {
 			return v(e.Name)
@@ -286,8 +360,42 @@ func (t *tr) expr(e ast.Expr) string {
 			if l, ok := e.X.(*ast.BasicLit); ok && l.Kind == token.INT {
 				return "(-" + l.Value + ")%Z"
 			}
+		case token.AND: // &cfgerrors.UnacceptableOriginPatternError{Value: v, Reason: "r"}
+			if cl, ok := e.X.(*ast.CompositeLit); ok && src(cl.Type) == "cfgerrors.UnacceptableOriginPatternError" && len(cl.Elts) == 2 {
+				var val, reason string
+				for _, el := range cl.Elts {
+					kv, ok := el.(*ast.KeyValueExpr)
+					if !ok {
+						fail(e, "unkeyed error literal")
+					}
+					switch ident(kv.Key) {
+					case "Value":
+						val = t.expr(kv.Value)
+					case "Reason":
+						if l, ok := kv.Value.(*ast.BasicLit); ok {
+							u, _ := strconv.Unquote(l.Value)
+							reason = reasonsTbl[u]
+						}
+					}
+				}
+				if val != "" && reason != "" {
+					return "(Some (" + val + ", " + reason + "))"
+				}
+			}
 		}
 		fail(e, "unary %s", src(e))
+	case *ast.SelectorExpr:
+		if x := ident(e.X); x != "" {
+			if f, ok := fields[t.kinds[x]+"."+e.Sel.Name]; ok {
+				return "(" + f[0] + " " + v(x) + ")"
+			}
+		}
+		if inner, ok := e.X.(*ast.SelectorExpr); ok {
+			if f, ok := fields[t.kind(inner)+"."+e.Sel.Name]; ok {
+				return "(" + f[0] + " " + t.expr(inner) + ")"
+			}
+		}
+		fail(e, "%s: selector %s", t.fn, src(e))
 	case *ast.BinaryExpr:
 		return t.binary(e)
 	case *ast.IndexExpr:
@@ -326,6 +434,14 @@ func (t *tr) expr(e ast.Expr) string {
 		case "Origin":
 			if len(vals) == 3 && vals["Scheme"] != "" && vals["Host"] != "" && vals["Port"] != "" {
 				return "{| oscheme := " + vals["Scheme"] + "; ohost := " + vals["Host"] + "; oport := " + vals["Port"] + " |}"
+			}
+		case "HostPattern":
+			if len(vals) == 2 && vals["Value"] != "" && vals["Kind"] != "" {
+				return "{| hp_value := " + vals["Value"] + "; hp_kind := " + vals["Kind"] + " |}"
+			}
+		case "Pattern":
+			if len(vals) == 3 && vals["HostPattern"] != "" && vals["Scheme"] != "" && vals["Port"] != "" {
+				return "(mk_pattern " + vals["Scheme"] + " " + vals["HostPattern"] + " " + vals["Port"] + ")"
 			}
 		}
 		fail(e, "composite literal %s", src(e))
@@ -378,6 +494,14 @@ func (t *tr) binary(e *ast.BinaryExpr) string {
 		return s
 	}
 	switch k {
+	case "pkind":
+		if e.Op == token.EQL || e.Op == token.NEQ {
+			return neg("(pkind_eqb "+a+" "+b+")", e.Op == token.NEQ)
+		}
+	case "err":
+		if ident(e.Y) == "nil" && (e.Op == token.EQL || e.Op == token.NEQ) {
+			return neg("(is_some_err "+a+")", e.Op == token.EQL)
+		}
 	case "byte":
 		if e.Op == token.EQL || e.Op == token.NEQ {
 			return neg("(N.eqb "+a+" "+b+")", e.Op == token.NEQ)
@@ -441,8 +565,12 @@ func (t *tr) call(c *ast.CallExpr) string {
 		if len(c.Args) == 1 {
 			return "(go_isOWS " + arg(0) + ")"
 		}
+	case "strings.HasPrefix":
+		if len(c.Args) == 2 {
+			return "(strings_HasPrefix " + arg(0) + " " + arg(1) + ")"
+		}
 	}
-	if f, ok := funcs[t.pkg+"."+name]; ok && !f.loopy && len(f.results) == 1 {
+	if f, ok := funcs[t.pkg+"."+name]; ok && !f.loopy && len(f.results) == 1 && f.recv == "" {
 		s := "(" + f.gname
 		for i := range c.Args {
 			s += " " + arg(i)
@@ -451,6 +579,34 @@ func (t *tr) call(c *ast.CallExpr) string {
 	}
 	if se, ok := c.Fun.(*ast.SelectorExpr); ok {
 		x := ident(se.X)
+		// a method of a translated type: hp.IsIP(), pattern.hostOnly(), p.hostOnly()
+		if f, ok := funcs[t.pkg+"."+se.Sel.Name]; ok && f.recv != "" && !f.loopy && len(f.results) == 1 {
+			rk := t.kind(se.X)
+			recv := t.expr(se.X)
+			if rk == "pattern" && f.recv == "hostpat" { // promoted method of the embedded HostPattern
+				recv = "(hostpat_of " + recv + ")"
+				rk = "hostpat"
+			}
+			if rk == f.recv {
+				s := "(" + f.gname + " " + recv
+				for i := range c.Args {
+					s += " " + arg(i)
+				}
+				return s + ")"
+			}
+		}
+		if t.kinds[x] == "ip" && len(c.Args) == 0 {
+			switch se.Sel.Name {
+			case "Zone":
+				return "(ip_Zone " + v(x) + ")"
+			case "Is4In6":
+				return "(ip_Is4In6 " + v(x) + ")"
+			case "String":
+				return "(ip_String " + v(x) + ")"
+			case "IsLoopback":
+				return "(ip_IsLoopback " + v(x) + ")"
+			}
+		}
 		switch se.Sel.Name {
 		case "Contains": // ASCIISet membership
 			if cc, ok := consts[t.pkg+"."+x]; ok && cc[1] == "asciiset" && len(c.Args) == 1 {
@@ -540,6 +696,9 @@ func (t *tr) assigned(list []ast.Stmt) []string {
 					}
 					if id != "" && id != "_" && !inside[id] {
 						set[id] = true
+					}
+					if x, _ := sel(l); x != "" && !inside[x] { // x.F = e updates the struct-valued local x
+						set[x] = true
 					}
 				}
 			case *ast.IncDecStmt:
@@ -647,6 +806,9 @@ func (t *tr) loopyCall(e ast.Expr) (*fnInfo, string, bool) {
 	if !ok {
 		return nil, "", false
 	}
+	if f.recv != "" {
+		return nil, "", false
+	}
 	s := f.gname
 	for _, a := range c.Args {
 		s += " " + t.expr(a)
@@ -666,6 +828,14 @@ func (t *tr) seq(list []ast.Stmt, end string) string {
 	cont := func(line string) string { return line + "\n" + t.ind() + t.seq(rest, end) }
 	switch s := s.(type) {
 	case *ast.ReturnStmt:
+		if len(s.Results) == 1 && len(t.info.results) > 1 {
+			if f, call, ok := t.loopyCall(s.Results[0]); ok && len(f.results) == len(t.info.results) {
+				if f.loopy {
+					return "match " + call + " with None => " + t.kExh() + " | Some r => " + t.kRet("r") + " end"
+				}
+				return t.kRet("(" + call + ")")
+			}
+		}
 		return t.kRet(t.retValues(s))
 	case *ast.BranchStmt:
 		if len(t.loop) == 0 || s.Label != nil {
@@ -743,6 +913,15 @@ func (t *tr) assign(s *ast.AssignStmt, rest []ast.Stmt, end string) string {
 		fail(s, "parallel assignment")
 	}
 	rhs := s.Rhs[0]
+	// x.F = e on a struct-valued local
+	if len(s.Lhs) == 1 && s.Tok == token.ASSIGN {
+		if x, f := sel(s.Lhs[0]); x != "" {
+			if fd, ok := fields[t.kinds[x]+"."+f]; ok && fd[1] != "" {
+				return cont("let " + v(x) + " := " + fd[1] + " " + v(x) + " " + t.expr(rhs) + " in")
+			}
+			fail(s, "%s: assignment %s", t.fn, src(s))
+		}
+	}
 	names := make([]string, len(s.Lhs))
 	for i, l := range s.Lhs {
 		names[i] = ident(l)
@@ -752,6 +931,28 @@ func (t *tr) assign(s *ast.AssignStmt, rest []ast.Stmt, end string) string {
 	}
 	if len(names) == 1 && names[0] == "_" { // _ = str[i:end]: a bounds-check hint
 		return t.seq(rest, end)
+	}
+	if s.Tok == token.ADD_ASSIGN && len(names) == 1 && t.kinds[names[0]] == "int" {
+		return cont("let " + v(names[0]) + " := (" + v(names[0]) + " + " + t.intOperand(rhs) + ")%Z in")
+	}
+	if c, ok := rhs.(*ast.CallExpr); ok && len(names) == 2 {
+		switch src(c.Fun) {
+		case "netip.ParseAddr": // ip, err := netip.ParseAddr(x)
+			if len(c.Args) == 1 && s.Tok == token.DEFINE {
+				val := "netip_ParseAddr ip6 " + t.expr(c.Args[0])
+				t.declare(names[0], "ip")
+				t.declare(names[1], "err")
+				t.usesOracles = true
+				return cont("let '(" + v(names[0]) + ", " + v(names[1]) + ") := " + val + " in")
+			}
+		case "profile.ToASCII": // _, err := profile.ToASCII(x)
+			if len(c.Args) == 1 && names[0] == "_" && s.Tok == token.DEFINE {
+				val := "idna_ToASCII ace_ok " + t.expr(c.Args[0])
+				t.declare(names[1], "err")
+				t.usesOracles = true
+				return cont("let " + v(names[1]) + " := " + val + " in")
+			}
+		}
 	}
 	bind := func(kinds []string) {
 		for i, n := range names {
@@ -819,12 +1020,21 @@ func (t *tr) ifStmt(s *ast.IfStmt, rest []ast.Stmt, end string) string {
 	pre := ""
 	if s.Init != nil { // if i := strings.IndexByte(...); i >= 0 { ... }
 		as, ok := s.Init.(*ast.AssignStmt)
-		if !ok || as.Tok != token.DEFINE || len(as.Lhs) != 1 || len(as.Rhs) != 1 {
+		if !ok || len(as.Rhs) != 1 {
 			fail(s, "if with an init statement %s", src(s.Init))
 		}
-		val := t.expr(as.Rhs[0])
-		t.declare(ident(as.Lhs[0]), t.kind(as.Rhs[0]))
-		pre = "let " + v(ident(as.Lhs[0])) + " := " + val + " in\n" + t.ind()
+		c, isCall := as.Rhs[0].(*ast.CallExpr)
+		switch {
+		case as.Tok == token.DEFINE && len(as.Lhs) == 1:
+			val := t.expr(as.Rhs[0])
+			t.declare(ident(as.Lhs[0]), t.kind(as.Rhs[0]))
+			pre = "let " + v(ident(as.Lhs[0])) + " := " + val + " in\n" + t.ind()
+		case as.Tok == token.ASSIGN && len(as.Lhs) == 2 && isCall && src(c.Fun) == "strings.CutPrefix" && len(c.Args) == 2 &&
+			t.kinds[ident(as.Lhs[0])] == "str" && t.kinds[ident(as.Lhs[1])] == "bool":
+			pre = "let '(" + v(ident(as.Lhs[0])) + ", " + v(ident(as.Lhs[1])) + ") := strings_CutPrefix " + t.expr(c.Args[0]) + " " + t.expr(c.Args[1]) + " in\n" + t.ind()
+		default:
+			fail(s, "if with an init statement %s", src(s.Init))
+		}
 	}
 	cond := t.expr(s.Cond)
 	scope1, kinds1 := t.snapshot()
@@ -1013,10 +1223,17 @@ func translate(pkg string, fd *ast.FuncDecl, gname string) string {
 	name := fd.Name.Name
 	info := &fnInfo{gname: gname}
 	t := &tr{pkg: pkg, fn: name, info: info, kinds: map[string]string{}}
-	if fd.Recv != nil {
-		fail(fd, "%s: method", name)
-	}
 	params := ""
+	if fd.Recv != nil {
+		r := fd.Recv.List[0]
+		k := kindOfType(src(r.Type))
+		if k != "hostpat" && k != "pattern" || len(r.Names) != 1 {
+			fail(fd, "%s: receiver %s", name, src(r.Type))
+		}
+		info.recv = k
+		t.declare(r.Names[0].Name, k)
+		params += " (" + v(r.Names[0].Name) + " : " + coqType[k] + ")"
+	}
 	for _, f := range fd.Type.Params.List {
 		k := kindOfType(src(f.Type))
 		if k == "" {
@@ -1048,6 +1265,19 @@ func translate(pkg string, fd *ast.FuncDecl, gname string) string {
 		fail(fd, "%s: no result", name)
 	}
 	info.loopy = containsLoopOrLoopyCall(pkg, fd)
+	// inside the Section, a function that uses the oracles (or calls one that does) takes them as leading arguments
+	ast.Inspect(fd.Body, func(x ast.Node) bool {
+		if c, ok := x.(*ast.CallExpr); ok {
+			switch src(c.Fun) {
+			case "netip.ParseAddr", "profile.ToASCII":
+				info.oracles = " ace_ok ip6"
+			}
+			if f, ok := funcs[pkg+"."+src(c.Fun)]; ok && f.oracles != "" {
+				info.oracles = " ace_ok ip6"
+			}
+		}
+		return true
+	})
 	pre := ""
 	for _, n := range named {
 		pre += "let " + v(n) + " := " + zeroOfKind[t.kinds[n]] + " in\n  "
@@ -1088,6 +1318,9 @@ func collectConsts(pkg string, file *ast.File, exact bool) {
 							}
 						}
 					}
+					if vs.Type != nil && src(vs.Type) == "PatternKind" || len(vs.Values) == 0 && pkinds[n.Name] != "" || pkinds[n.Name] != "" {
+						continue // the PatternKind enumeration is mapped by name
+					}
 					term := pkg + "_" + n.Name
 					if k == "byte" {
 						term = "(Z.to_N " + term + ")"
@@ -1106,10 +1339,12 @@ func collectConsts(pkg string, file *ast.File, exact bool) {
 						}
 					}
 					switch n.Name {
-					case "zeroOrigin", "zeroHost":
+					case "zeroOrigin", "zeroHost", "zeroPattern", "zeroHostPattern":
 						if vs.Values == nil {
 							continue
 						}
+					case "profile": // the IDNA profile: an oracle (ace_ok) plus Model/Idna.v
+						continue
 					}
 					if exact {
 						fail(vs, "package-level variable %s", n.Name)
@@ -1135,8 +1370,12 @@ func collectConsts(pkg string, file *ast.File, exact bool) {
 			}
 			for _, sp := range gd.Specs {
 				vs := sp.(*ast.ValueSpec)
-				for _, n := range vs.Names {
-					consts[pkg+"."+fd.Name.Name+"."+n.Name] = [2]string{pkg + "_" + fd.Name.Name + "_" + n.Name, "int"}
+				for i, n := range vs.Names {
+					k := "int"
+					if i < len(vs.Values) && (strings.Contains(src(vs.Values[i]), "\"") || strings.Contains(src(vs.Values[i]), "string(")) {
+						k = "str"
+					}
+					consts[pkg+"."+fd.Name.Name+"."+n.Name] = [2]string{pkg + "_" + fd.Name.Name + "_" + n.Name, k}
 				}
 			}
 			return true
@@ -1151,11 +1390,11 @@ type job struct {
 }
 
 func main() {
-	if len(os.Args) != 3 {
-		fmt.Fprintln(os.Stderr, "usage: genloop <repo> <out.v>")
+	if len(os.Args) != 4 {
+		fmt.Fprintln(os.Stderr, "usage: genloop <repo> <LoopSrc.v> <PatSrc.v>")
 		os.Exit(2)
 	}
-	repo, out := os.Args[1], os.Args[2]
+	repo, out, outPat := os.Args[1], os.Args[2], os.Args[3]
 	header := "(* GENERATED by tools/genloop from internal/origins/origins.go and internal/headers/{acrh,ows}.go on every run -- do not edit. *)\n" +
 		"Require Import Base.Bytes Gen.Tables Model.Util Model.Headers Model.Origins Model.UtilRt Gen.UtilSrc Model.LoopRt.\nOpen Scope bool_scope.\n\n"
 	jobs := []job{
@@ -1224,7 +1463,70 @@ func main() {
 		fmt.Fprintln(os.Stderr, err)
 		os.Exit(1)
 	}
-	if errMsg != "" {
+	// ---- second file: internal/origins/pattern.go (needs the origins.go functions above) ----
+	headerPat := "(* GENERATED by tools/genloop from internal/origins/pattern.go on every run -- do not edit. *)\n" +
+		"Require Import Base.Bytes Gen.Tables Model.Util Model.Headers Model.Origins Model.Netip Model.Idna Model.Pattern Model.UtilRt Gen.UtilSrc Model.LoopRt Gen.LoopSrc Model.PatRt.\nOpen Scope bool_scope.\n\n"
+	var sp strings.Builder
+	sp.WriteString(headerPat)
+	errPat := errMsg
+	if errPat == "" {
+		func() {
+			defer func() {
+				if e := recover(); e != nil {
+					if f, ok := e.(failure); ok {
+						errPat = f.msg
+						return
+					}
+					panic(e)
+				}
+			}()
+			file, err := parser.ParseFile(fset, filepath.Join(repo, "internal/origins/pattern.go"), nil, parser.SkipObjectResolution)
+			if err != nil {
+				fail(nil, "parse error: %v", err)
+			}
+			collectConsts("origins", file, true)
+			consts["origins.wildcardPort"] = [2]string{"origins_wildcardPort", "int"} // declared in radix.go
+			decls := map[string]*ast.FuncDecl{}
+			for _, d := range file.Decls {
+				if fd, ok := d.(*ast.FuncDecl); ok {
+					decls[fd.Name.Name] = fd
+				}
+			}
+			order := [][2]string{{"peekKind", "go_peekKind"}, {"hostOnly", "go_hostOnly"}, {"IsIP", "go_IsIP"}, {"isDefaultPortForScheme", "go_isDefaultPortForScheme"},
+				{"parsePortPattern", "go_parsePortPattern"}, {"parseHostPattern", "go_parseHostPattern"}, {"ParsePattern", "go_ParsePattern"}, {"IsDeemedInsecure", "go_IsDeemedInsecure"}}
+			want := map[string]bool{"HostIsEffectiveTLD": true} // public-suffix lookup: an oracle (is_psl), kept as a contract in gencfg
+			for _, f := range order {
+				want[f[0]] = true
+			}
+			for n, d := range decls {
+				if !want[n] {
+					fail(d, "function %s in pattern.go is not modelled", n)
+				}
+			}
+			sp.WriteString("Section Oracles.\nVariable ace_ok : bytes -> bool.\nVariable ip6 : bytes -> ipres.\n\n")
+			for _, f := range order {
+				fd := decls[f[0]]
+				if fd == nil {
+					fail(nil, "function %s not found in pattern.go", f[0])
+				}
+				sp.WriteString(translate("origins", fd, f[1]))
+				sp.WriteString("\n")
+			}
+			sp.WriteString("End Oracles.\n")
+		}()
+	}
+	textPat := sp.String()
+	if errPat != "" {
+		esc := strings.NewReplacer("\n", " ", "*)", "* )").Replace(errPat)
+		textPat = headerPat + "(* the translator stopped: the source is outside the translated fragment *)\n" +
+			"Definition genloop_pattern_failed : bool := true.\n(* reason: " + esc + " *)\n"
+		fmt.Fprintln(os.Stderr, "genloop: "+errPat)
+	}
+	if err := os.WriteFile(outPat, []byte(textPat), 0o644); err != nil {
+		fmt.Fprintln(os.Stderr, err)
+		os.Exit(1)
+	}
+	if errMsg != "" || errPat != "" {
 		os.Exit(3)
 	}
 }
